@@ -392,7 +392,7 @@ pub fn run(tier: Tier) -> i32 {
     // geometry written on the connector as well does not override what its ends determine
     let mut extra: Vec<(String, String, String)> = Vec::new();
     for (kn, kind) in [("line", "<line id=\"k\" start=\"#a\" end=\"#b\"%%/>"), ("line-h", "<line id=\"k\" start=\"#a\" end=\"#b\" edge-type=\"h\"%%/>"), ("polyline", "<polyline id=\"k\" start=\"#a@r\" end=\"#b@l\"%%/>"), ("line-literal", "<line id=\"k\" start=\"3 4\" end=\"#b\"%%/>")] {
-        for (an, attr) in [("x1", " x1=\"99\""), ("y2", " y2=\"-5\""), ("points", " points=\"1 1 2 2\""), ("xy1", " xy1=\"77 88\""), ("xy2", " xy2=\"7 8\""), ("x", " x=\"3\""), ("cxy", " cxy=\"1 2\"")] {
+        for (an, attr) in [("x1", " x1=\"99\""), ("y2", " y2=\"-5\""), ("points", " points=\"1 1 2 2\""), ("xy1", " xy1=\"77 88\""), ("xy2", " xy2=\"7 8\""), ("x", " x=\"3\""), ("cxy", " cxy=\"1 2\""), ("dx", " dx=\"5\""), ("dy", " dy=\"{{1+1}}\""), ("dxy", " dxy=\"3 4\"")] {
             let wrap = |k: &str| format!("<svg><rect id=\"a\" wh=\"10\"/><rect id=\"b\" xy=\"30 4\" wh=\"10\"/>{k}</svg>");
             extra.push((format!("{kn}/{an}"), wrap(&kind.replace("%%", attr)), wrap(&kind.replace("%%", ""))));
         }
@@ -415,6 +415,36 @@ pub fn run(tier: Tier) -> i32 {
         }
     });
     rep.absorb("explicit-geometry", st);
+    // (fourth review round) a literal point is used verbatim at either end of an h / v connector; edge-type="corner"
+    // written out is what a polyline has without it
+    let pinned: Vec<(&str, &str, &str)> = vec![
+        ("literal-end/h", r##"<svg><rect id="a" wh="10"/><line id="k" start="#a" end="30 2" edge-type="h"/></svg>"##, "x1=10 x2=30 y1=2 y2=2"),
+        ("literal-end/v", r##"<svg><rect id="a" wh="10"/><line id="k" start="#a" end="2 30" edge-type="v"/></svg>"##, "x1=2 x2=2 y1=10 y2=30"),
+        ("literal-start/h", r##"<svg><rect id="a" wh="10"/><line id="k" start="30 2" end="#a" edge-type="h"/></svg>"##, "x1=30 x2=10 y1=2 y2=2"),
+        ("literal-start/v", r##"<svg><rect id="a" wh="10"/><line id="k" start="2 30" end="#a" edge-type="v"/></svg>"##, "x1=2 x2=2 y1=30 y2=10"),
+        ("edge-type-corner-written-out", r##"<svg><rect id="a" wh="10"/><rect id="b" xy="30 20" wh="10"/><polyline id="k" start="#a" end="#b" edge-type="corner"/></svg>"##, "points=10 5, 20 5, 20 25, 30 25"),
+    ];
+    let st = run_space(pinned.len(), |i| {
+        let (name, doc, want) = pinned[i];
+        let out = run_str(doc, &Cfg::plain());
+        let got = match &out {
+            Outcome::Ok(b) => xmlref::parse_tree(b, Mode::Document).ok().and_then(|t| xmlref::root(&t).and_then(|r| r.find_id("k").map(|e| {
+                let mut a: Vec<String> = e.attrs.iter().filter(|(k, _)| k != "id").map(|(k, v)| format!("{k}={v}")).collect();
+                a.sort();
+                a.join(" ")
+            }))),
+            _ => None,
+        };
+        let bad = got.as_deref() != Some(want);
+        CaseResult {
+            case_hash: hash64(&doc),
+            nontrivial: !bad,
+            outcome_hash: hash64(&format!("{out:?}")),
+            executions: 1,
+            violation: bad.then(|| Violation { clause: "pinned".into(), signature: format!("C13/pinned/{name}"), case: json!({"input": doc}), detail: format!("{doc}\nexpected {want}\nobserved {got:?}\n{}", clip(&out.brief(), 300)) }),
+        }
+    });
+    rep.absorb("pinned", st);
     rep.assume("ties between equidistant candidate locations are free; corner assertions apply when both ends lie on edges (named edge or automatic); h/v assertions apply to element-to-element connectors");
     rep.finish()
 }
